@@ -36,6 +36,19 @@ var (
 	DustDenom = "aaaaa"
 )
 
+// DenomUniverse switches the two alliance denoms of the universe: 0 = equal length (default),
+// 1 = the second denom ends with the first ("alpha" / "zalpha": suffix filters over index keys),
+// 2 = the second denom starts with the first ("alpha" / "alphaz": prefix scans). Harnesses whose
+// keys put nothing symbolic in front of the denom call it first with an nd.Choice.
+func DenomUniverse(k int) {
+	switch k {
+	case 1:
+		Denoms = []string{"alpha", "zalpha"}
+	case 2:
+		Denoms = []string{"alpha", "alphaz"}
+	}
+}
+
 // Time window for block times: 2020-01-01 .. 2100-01-01 (Unix seconds).
 const (
 	TLo = int64(1577836800)
